@@ -6,6 +6,36 @@ and the map-order independence of `Normalize`
 namespace Knut.Prices
 open Knut Knut.Dec Knut.Spec
 
+/-! ## truncation is idempotent: a price with at most `n` decimals is not changed by `Truncate(n)` -/
+
+theorem mkRat_num_den (k : Int) (D : Nat) (hD : D ≠ 0) : (mkRat k D).num * D = k * (mkRat k D).den := by
+  have h := Rat.mkRat_self (mkRat k D)
+  exact (Rat.mkRat_eq_iff (mkRat k D).den_nz hD).mp h
+
+/-- a decimal with at most `n` fractional digits (`k / 10^n`) is a fixed point of `Truncate(n)` -/
+theorem trunc_mkRat (n : Nat) (k : Int) : trunc n (mkRat k (10 ^ n)) = mkRat k (10 ^ n) := by
+  have hD : (10 : Nat) ^ n ≠ 0 := Nat.ne_of_gt (Nat.pow_pos (by decide))
+  unfold trunc scaledTrunc pow10
+  have h := mkRat_num_den k (10 ^ n) hD
+  have hc : ((10 : Int) ^ n) = (((10 : Nat) ^ n : Nat) : Int) := by simp
+  rw [hc, h]
+  have hden : ((mkRat k (10 ^ n)).den : Int) ≠ 0 := by
+    have := (mkRat k (10 ^ n)).den_nz; omega
+  rw [Int.mul_tdiv_cancel _ hden]
+
+theorem trunc_idem (n : Nat) (x : Rat) : trunc n (trunc n x) = trunc n x := by
+  unfold trunc
+  exact trunc_mkRat n _
+
+theorem multiply_one (x : Rat) : multiply x 1 = trunc 8 x := by
+  simp [multiply, multiplyPlaces, Rat.mul_one]
+
+/-- the stored reciprocal already has 8 decimals: multiplying it by the price 1 changes nothing -/
+theorem multiply_recip_one (p : Rat) : multiply (recip p) 1 = recip p := by
+  rw [multiply_one]
+  unfold recip insertPlaces
+  exact trunc_idem 8 _
+
 /-! ## `Insert` stores exactly the latest declaration of each pair -/
 
 theorem edge_addPrice (ps : Prices) (t c : Commodity) (p : Rat) (a b : Commodity) :
